@@ -525,23 +525,8 @@ def _cformula(op, which, vals, isnum):
     return (lambda x: sum(sgn * x[i] * x[j] for sgn, i, j in terms) / (x[2] ** 2 + x[3] ** 2)), g, used
 
 
-def cobs_oracle(spec):
-    import pyerrors as pe
-    l1, l2, r1, r2 = build_leaves(spec['ops'])
-    L, (lr, li) = _mk_operand(pe, spec['left'], l1, l2, spec['lnum'])
-    R, (rr, ri) = _mk_operand(pe, spec['right'], r1, r2, spec['rnum'])
-    op = spec['op']
-    if op == '+':
-        res = L + R
-    elif op == '-':
-        res = L - R
-    elif op == '*':
-        res = L * R
-    else:
-        res = L / R
-    require(isinstance(res, pe.CObs), 'complex arithmetic %s %s %s did not return a CObs' % (spec['left'], op, spec['right']),
-            type(res).__name__)
-    parts = [lr, li, rr, ri]
+def judge_complex(pe, res, parts, op, lname, rname):
+    """res must be the CObs (lr + i li) op (rr + i ri) given the four parts (Obs or plain numbers)."""
     isnum = [not is_obs(p) for p in parts]
     refs = [ref_of(p) for p in parts]
     vals = [r.value for r in refs]
@@ -557,7 +542,7 @@ def cobs_oracle(spec):
                 full[k] = xv
             return f(full)
         rf = combine(fr, [g[k] for k in used_obs], [refs[k] for k in used_obs])
-        what = '%s part of %s %s %s' % (nm, spec['left'], op, spec['right'])
+        what = '%s part of %s %s %s' % (nm, lname, op, rname)
         if is_obs(part):
             try:
                 cmp_obs(rf, part, what, rtol=1e-9, atol_scale=1e-11, check_rv=True)
@@ -585,6 +570,25 @@ def cobs_oracle(spec):
             require(not rf.d and not rf.cg, what + ' is a plain number although it depends on observables', part)
             require(not isinstance(part, complex), what + ' is complex', part)
             require(abs(float(part) - rf.value) <= 1e-11 * max(1.0, abs(rf.value)), what + ' has wrong value', part, rf.value)
+
+
+def cobs_oracle(spec):
+    import pyerrors as pe
+    l1, l2, r1, r2 = build_leaves(spec['ops'])
+    L, (lr, li) = _mk_operand(pe, spec['left'], l1, l2, spec['lnum'])
+    R, (rr, ri) = _mk_operand(pe, spec['right'], r1, r2, spec['rnum'])
+    op = spec['op']
+    if op == '+':
+        res = L + R
+    elif op == '-':
+        res = L - R
+    elif op == '*':
+        res = L * R
+    else:
+        res = L / R
+    require(isinstance(res, pe.CObs), 'complex arithmetic %s %s %s did not return a CObs' % (spec['left'], op, spec['right']),
+            type(res).__name__)
+    judge_complex(pe, res, [lr, li, rr, ri], op, spec['left'], spec['right'])
     labs = ['pair:%s%s%s' % (spec['left'], op, spec['right']), 'mode:' + spec.get('mode', '')]
     nt = spec['left'] not in ('cobs', 'cobs_num_imag') or gen.needs_realign(spec['ops'])
     return {'nt': nt, 'cls': labs}
@@ -595,14 +599,34 @@ def cobs_oracle(spec):
 
 @st.composite
 def ndarray_case(draw, tier):
-    ops = draw(gen.related_obs_specs(1, lmax=20, sigma=gen.fl(0.001, 0.3), mean=gen.fl(0.5, 3)))
+    ops = draw(gen.precond_specs(2, 'same_replicas', lmax=20, sigma=gen.fl(0.001, 0.3), mean=gen.fl(0.5, 3)))
     arr = draw(st.lists(st.one_of(gen.fl(0.3, 3), gen.fl(-3, -0.3)), min_size=1, max_size=4))
-    return {'ops': ops, 'arr': arr, 'op': draw(st.sampled_from(['+', '-', '*', '/'])), 'order': draw(st.sampled_from(['obs_first', 'array_first']))}
+    return {'ops': ops, 'arr': arr, 'op': draw(st.sampled_from(['+', '-', '*', '/'])), 'order': draw(st.sampled_from(['obs_first', 'array_first'])),
+            'cobs': draw(st.sampled_from([False, False, True])), 'carr': draw(st.booleans())}
 
 
 def ndarray_oracle(spec):
-    (o,) = build_leaves(spec['ops'])
+    import pyerrors as pe
+    o, o2 = build_leaves(spec['ops'])
     arr = np.array(spec['arr'])
+    if spec.get('cobs'):
+        # complex observable (op) ndarray of real or complex numbers, both orders: element-wise complex arithmetic
+        co = pe.CObs(o, o2)
+        if spec.get('carr'):
+            arr = arr + 1j * arr[::-1] * 0.5
+        fn = {'+': lambda a, b: a + b, '-': lambda a, b: a - b, '*': lambda a, b: a * b, '/': lambda a, b: a / b}[spec['op']]
+        res = fn(co, arr) if spec['order'] == 'obs_first' else fn(arr, co)
+        require(isinstance(res, np.ndarray) and res.shape == arr.shape, 'CObs (op) ndarray must be an array of the same shape',
+                type(res).__name__, getattr(res, 'shape', None))
+        for k, y in enumerate(arr):
+            y = complex(y)
+            num = (float(y.real), float(y.imag))
+            require(isinstance(res[k], pe.CObs), 'element %d of CObs (op) ndarray is a %s' % (k, type(res[k]).__name__))
+            if spec['order'] == 'obs_first':
+                judge_complex(pe, res[k], [o, o2, num[0], num[1]], spec['op'], 'cobs', 'ndarray[%d]' % k)
+            else:
+                judge_complex(pe, res[k], [num[0], num[1], o, o2], spec['op'], 'ndarray[%d]' % k, 'cobs')
+        return {'nt': True, 'cls': ['nd:cobs:' + spec['op'] + ':' + spec['order'] + (':complex' if spec.get('carr') else ':real')]}
     f, df = BIN[spec['op']]
     res = {'+': lambda a, b: a + b, '-': lambda a, b: a - b, '*': lambda a, b: a * b, '/': lambda a, b: a / b}[spec['op']](
         *((o, arr) if spec['order'] == 'obs_first' else (arr, o)))
@@ -627,6 +651,6 @@ SUBS = [
         doc='one call vs binary bracketing under the shared-replica / shared-configuration precondition'),
     Sub('cobs', cobs_case, cobs_oracle, {'quick': 450, 'thorough': 4000}, {'quick': 2, 'thorough': 8},
         doc='complex observables against real-pair formulas'),
-    Sub('ndarray', ndarray_case, ndarray_oracle, {'quick': 100, 'thorough': 1500}, {'quick': 1, 'thorough': 2},
+    Sub('ndarray', ndarray_case, ndarray_oracle, {'quick': 250, 'thorough': 1500}, {'quick': 2, 'thorough': 4},
         doc='Obs (op) ndarray element-wise'),
 ]
